@@ -595,16 +595,35 @@ func (s *system) startClientArgs(name string, args []string) (*proc, string, err
 	return p, "", fmt.Errorf("client did not announce its SOCKS port")
 }
 
-func socksConnect(addr string) (net.Conn, error) {
+func socksConnect(addr string) (net.Conn, error) { return socksConnectArgs(addr, "") }
+
+// socksConnectArgs passes pluggable-transport arguments ("k=v;k=v") the way tor
+// does: in the username/password fields of SOCKS5 authentication.
+func socksConnectArgs(addr, args string) (net.Conn, error) {
 	c, err := net.DialTimeout("tcp", addr, 5*time.Second)
 	if err != nil {
 		return nil, err
 	}
-	c.Write([]byte{5, 1, 0})
 	var r [2]byte
-	if _, err := io.ReadFull(c, r[:]); err != nil || r[1] != 0 {
-		c.Close()
-		return nil, fmt.Errorf("socks method negotiation: %v %v", r, err)
+	if args == "" {
+		c.Write([]byte{5, 1, 0})
+		if _, err := io.ReadFull(c, r[:]); err != nil || r[1] != 0 {
+			c.Close()
+			return nil, fmt.Errorf("socks method negotiation: %v %v", r, err)
+		}
+	} else {
+		c.Write([]byte{5, 1, 2})
+		if _, err := io.ReadFull(c, r[:]); err != nil || r[1] != 2 {
+			c.Close()
+			return nil, fmt.Errorf("socks method negotiation (auth): %v %v", r, err)
+		}
+		msg := append([]byte{1, byte(len(args))}, []byte(args)...)
+		msg = append(msg, 1, 0)
+		c.Write(msg)
+		if _, err := io.ReadFull(c, r[:]); err != nil || r[1] != 0 {
+			c.Close()
+			return nil, fmt.Errorf("socks authentication: %v %v", r, err)
+		}
 	}
 	c.Write([]byte{5, 1, 0, 1, 0, 0, 3, 1, 0, 80})
 	var rr [10]byte
@@ -620,6 +639,7 @@ func socksConnect(addr string) (net.Conn, error) {
 // ---- one SOCKS session with M-streams in both directions ------------------------------------
 
 type sockSess struct {
+	args           string
 	tag            uint64
 	lenUp, lenDown uint64
 	downVerified   uint64
@@ -642,7 +662,7 @@ func (s *system) runSession(ss *sockSess, socksAddr string, deadline time.Durati
 	s.or.mu.Lock()
 	s.or.plans[ss.tag] = or
 	s.or.mu.Unlock()
-	c, err := socksConnect(socksAddr)
+	c, err := socksConnectArgs(socksAddr, ss.args)
 	if err != nil {
 		ss.setErr("socks: " + err.Error())
 		return
